@@ -73,17 +73,19 @@ inline VariablePtr buildVariable(const hx::Sexp &e)
     return v;
 }
 
-inline ResetPtr buildReset(const hx::Sexp &e)
+inline ResetPtr buildReset(const hx::Sexp &e, const ComponentPtr &owner = nullptr)
 {
     auto r = Reset::create();
     r->setId(e[1].text());
-    r->setOrder(atoi(e[2].atom.c_str()));
+    if (e[2].atom != "none") r->setOrder(atoi(e[2].atom.c_str()));
     r->setResetValue(e[3].text());
     r->setResetValueId(e[4].text());
     r->setTestValue(e[5].text());
     r->setTestValueId(e[6].text());
     if (e[7].head() == "var") r->setVariable(buildVariable(e[7]));
     if (e[8].head() == "var") r->setTestVariable(buildVariable(e[8]));
+    if (owner != nullptr && e[7].head() == "own") r->setVariable(owner->variable(size_t(atol(e[7][1].atom.c_str()))));
+    if (owner != nullptr && e[8].head() == "own") r->setTestVariable(owner->variable(size_t(atol(e[8][1].atom.c_str()))));
     return r;
 }
 
@@ -96,7 +98,7 @@ inline ComponentPtr buildComponent(const hx::Sexp &e)
     c->setMath(e[4].text());
     applyImp(e[5], c);
     for (size_t i = 1; i < e[6].size(); ++i) c->addVariable(buildVariable(e[6][i]));
-    for (size_t i = 1; i < e[7].size(); ++i) c->addReset(buildReset(e[7][i]));
+    for (size_t i = 1; i < e[7].size(); ++i) c->addReset(buildReset(e[7][i], c));
     for (size_t i = 1; i < e[8].size(); ++i) c->addComponent(buildComponent(e[8][i]));
     return c;
 }
@@ -110,6 +112,72 @@ inline ModelPtr buildModel(const hx::Sexp &e)
     for (size_t i = 1; i < e[4].size(); ++i) m->addUnits(buildUnits(e[4][i]));
     for (size_t i = 1; i < e[5].size(); ++i) m->addComponent(buildComponent(e[5][i]));
     return m;
+}
+
+// ---- dump real objects back to the wire format ------------------------------------------------------------
+inline std::string dumpNum(double d)
+{
+    char b[64];
+    snprintf(b, sizeof b, "%.17g", d);
+    return b;
+}
+
+template <class P>
+inline std::string dumpImp(const P &e)
+{
+    if (e->isImport()) return "(imp " + hx::H(e->importSource()->id()) + " " + hx::H(e->importSource()->url()) + " " + hx::H(e->importReference()) + ")";
+    return "(noimp " + hx::H(e->importReference()) + ")";
+}
+
+inline std::string dumpUnits(const UnitsPtr &u)
+{
+    std::string r = "(units " + hx::H(u->id()) + " " + hx::H(u->name()) + " " + dumpImp(u);
+    for (size_t i = 0; i < u->unitCount(); ++i) {
+        std::string ref, pfx, id;
+        double e, m;
+        u->unitAttributes(i, ref, pfx, e, m, id);
+        r += " (unit " + hx::H(ref) + " " + hx::H(pfx) + " " + hx::H(id) + " " + hx::H(dumpNum(e)) + " " + hx::H(dumpNum(m)) + ")";
+    }
+    return r + ")";
+}
+
+inline std::string dumpVariable(const VariablePtr &v)
+{
+    return "(var " + hx::H(v->id()) + " " + hx::H(v->name()) + " " + hx::H(v->initialValue()) + " " + hx::H(v->interfaceType()) + " "
+           + (v->units() == nullptr ? std::string("(nounits)") : dumpUnits(v->units())) + ")";
+}
+
+inline std::string dumpVarRef(const VariablePtr &v, const ComponentPtr &owner)
+{
+    if (v == nullptr) return "(novar)";
+    if (owner != nullptr) for (size_t i = 0; i < owner->variableCount(); ++i) if (owner->variable(i) == v) return "(own " + std::to_string(i) + ")";
+    return dumpVariable(v);
+}
+
+inline std::string dumpReset(const ResetPtr &r, const ComponentPtr &owner)
+{
+    return "(reset " + hx::H(r->id()) + " " + (r->isOrderSet() ? std::to_string(r->order()) : std::string("none")) + " " + hx::H(r->resetValue()) + " " + hx::H(r->resetValueId()) + " "
+           + hx::H(r->testValue()) + " " + hx::H(r->testValueId()) + " " + dumpVarRef(r->variable(), owner) + " " + dumpVarRef(r->testVariable(), owner) + ")";
+}
+
+inline std::string dumpComponent(const ComponentPtr &c)
+{
+    std::string r = "(comp " + hx::H(c->id()) + " " + hx::H(c->name()) + " " + hx::H(c->encapsulationId()) + " " + hx::H(c->math()) + " " + dumpImp(c) + " (vars";
+    for (size_t i = 0; i < c->variableCount(); ++i) r += " " + dumpVariable(c->variable(i));
+    r += ") (resets";
+    for (size_t i = 0; i < c->resetCount(); ++i) r += " " + dumpReset(c->reset(i), c);
+    r += ") (kids";
+    for (size_t i = 0; i < c->componentCount(); ++i) r += " " + dumpComponent(c->component(i));
+    return r + "))";
+}
+
+inline std::string dumpModel(const ModelPtr &m)
+{
+    std::string r = "(model " + hx::H(m->id()) + " " + hx::H(m->name()) + " " + hx::H(m->encapsulationId()) + " (units";
+    for (size_t i = 0; i < m->unitsCount(); ++i) r += " " + dumpUnits(m->units(i));
+    r += ") (comps";
+    for (size_t i = 0; i < m->componentCount(); ++i) r += " " + dumpComponent(m->component(i));
+    return r + "))";
 }
 
 } // namespace hxe
